@@ -141,7 +141,7 @@ const DESC_ALPHABET: &[u8] = b"BIL;[/a()V.";
 //# {"id":"c18_return_desc_ascii3","props":["C18","C16"],"tier":"quick","cap":900,"bound":"every ASCII string of length 0..=3; unwind 6","fns":["duke::tree::descriptor::ReturnDescriptorSlice::parse","read_field_type"]}
 //# {"id":"c18_method_desc_len2","props":["C18","C16"],"tier":"thorough","cap":3000,"bound":"every ASCII string of length exactly 2; unwind 4","fns":["duke::tree::method::MethodDescriptorSlice::parse","read_field_type"]}
 //# {"id":"c18_method_desc_ascii3","props":["C18","C16"],"tier":"thorough","cap":3000,"bound":"every ASCII string of length exactly 3; unwind 5","fns":["duke::tree::method::MethodDescriptorSlice::parse","read_field_type"]}
-//# {"id":"c18_field_desc_alpha5","props":["C18","C16"],"tier":"thorough","cap":2400,"bound":"every string of length 0..=5 over the alphabet B I L ; [ / a ( ) V . ; unwind 8","fns":["FieldDescriptorSlice::parse","read_field_type"]}
+//# {"id":"c18_field_desc_alpha5","props":["C18","C16"],"tier":"quick","cap":1200,"bound":"every string of length 0..=5 over the alphabet B I L ; [ / a ( ) V . ; unwind 8","fns":["FieldDescriptorSlice::parse","read_field_type"]}
 //# {"id":"c18_method_desc_alpha5","props":["C18","C16"],"tier":"thorough","cap":2400,"bound":"every string of length 0..=5 over the alphabet B I L ; [ / a ( ) V . ; unwind 8","fns":["MethodDescriptorSlice::parse","read_field_type"]}
 //# {"id":"c18_field_roundtrip_ascii3","props":["C18"],"tier":"quick","cap":900,"bound":"every ASCII string of length 0..=3 that parses; unwind 6","fns":["FieldDescriptorSlice::parse","ParsedFieldDescriptor::write","write_field_type"]}
 //# {"id":"c18_method_roundtrip_ascii4","props":["C18"],"tier":"thorough","cap":3600,"bound":"every ASCII string of length exactly 4 that parses; unwind 6","fns":["MethodDescriptorSlice::parse","ParsedMethodDescriptor::write","write_field_type"]}
